@@ -492,6 +492,20 @@ func c13Scenarios(tier string) []Spec {
 			}
 			return []func(){func() { w.publish(0, w.a) }, func() { w.readSnapshot(1, w.a) }, func() { w.readHeadsEntries(2, w.a) }}
 		}, A, false),
+		mk("S18-iterator(exclusive bound)|append", 2, b2, func(w *w13) []func() {
+			// the bounded forms of iteration look entries up before they walk: those look-ups happen under the lock the walk holds
+			head := w.a.Heads().Slice()[0].GetHash()
+			return []func(){func() {
+				ch := make(chan iface.IPFSLogEntry, 64)
+				if err := w.a.Iterator(&ipfslog.IteratorOptions{LT: []cid.Cid{head}}, ch); err != nil {
+					w.obs.add(0, "iterator-error: "+err.Error())
+				}
+				ch2 := make(chan iface.IPFSLogEntry, 64)
+				if err := w.a.Iterator(&ipfslog.IteratorOptions{LTE: []cid.Cid{head}, GT: w.a.Values().Slice()[0].GetHash()}, ch2); err != nil {
+					w.obs.add(0, "iterator-error: "+err.Error())
+				}
+			}, func() { w.appendOp(1, w.a, "x1") }}
+		}, A, false),
 		mk("S15-join|entries", 2, b2, func(w *w13) []func() {
 			return []func(){func() { w.joinOp(0, w.a, w.b, -1, "join:A<-B") }, func() { w.readEntries(1, w.a) }}
 		}, A, false),
